@@ -160,6 +160,9 @@ def generate(prop, rng):
             cand = sorted(l for l in src if l.startswith("c") and l not in dest)
             if cand:
                 src_missing = rng.sample(cand, rng.randint(1, min(2, len(cand))))
+        cfg["via_push"] = bool(cfg["shallow"] and not cfg["hardlink"] and not indexed and rng.random() < 0.3)
+        if cfg["via_push"]:
+            cfg["cache_odb"] = "dest"
         sc.update(
             request=request, src=sorted(src - set(src_missing)), dest=sorted(dest), corrupt={},
             src_missing=sorted(src_missing), indexed=indexed, vanished=vanished,
@@ -344,6 +347,9 @@ class Run:
             dconf["state"] = self.dstate
         else:
             self.dstate = None
+        if cfg.get("via_push") and cfg["use_index"]:
+            self.w.mkdirs(self.w.p("tmp"))
+            dconf["tmp_dir"] = self.w.p("tmp")  # get_index(): ObjectDBIndex, else the no-op index
         self.dest = self.w.odb(self.dname, dk, verify=cfg.get("verify", False), **dconf)
         if dk == "remote":
             self.w.remote_fs(self.dname).non_atomic = bool(cfg.get("non_atomic"))
@@ -357,7 +363,7 @@ class Run:
             oid = m.oid[lab]
             self.w.raw_add(self.dname, dk, oid, m.bytes[oid])
         self.index = None
-        if cfg["use_index"]:
+        if cfg["use_index"] and not cfg.get("via_push"):
             from dvc_data.hashfile.db.index import ObjectDBIndex
 
             self.w.mkdirs(self.w.p("tmp"))
@@ -375,10 +381,39 @@ class Run:
     def listing_dest(self):
         return self.w.listing(self.dname, self.cfg["dest_kind"])[0]
 
+    def push(self, request_oids):
+        """The same closed request sent the way `dvc push` sends it: index ->
+        collect(push=True) -> push (remote index from get_index, cache_odb = remote)."""
+        from dvc_data.hashfile.meta import Meta
+        from dvc_data.index import DataIndex, DataIndexEntry, ObjectStorage
+        from dvc_data.index.collect import collect
+        from dvc_data.index.push import push
+
+        m = self.m
+        idx = DataIndex()
+        req = list(request_oids)
+        covered = set()
+        n = 0
+        for o in req:
+            if o in m.children:
+                idx[(f"out{n}",)] = DataIndexEntry(key=(f"out{n}",), meta=Meta(isdir=True), hash_info=_hi(o))
+                covered.update(m.children[o])
+                n += 1
+        for o in req:
+            if o not in m.children and o not in covered:
+                idx[(f"out{n}",)] = DataIndexEntry(key=(f"out{n}",), meta=Meta(), hash_info=_hi(o))
+                n += 1
+        idx.storage_map.add_cache(ObjectStorage((), self.src))
+        idx.storage_map.add_remote(ObjectStorage((), self.dest))
+        idxs = collect([idx], "remote", push=True)
+        return push(idxs, jobs=self.cfg["jobs"])
+
     def transfer(self, request_oids):
         from dvc_data.hashfile.transfer import transfer
 
         cfg = self.cfg
+        if cfg.get("via_push"):
+            return self.push(request_oids)
         cache_odb = {"src": self.src, "dest": self.dest, None: None}[cfg["cache_odb"]]
         return transfer(
             self.src,
@@ -493,7 +528,14 @@ def _one(sc, ctx, m, idx, fail, req, req_star, src0, dest0, new):
     D1 = run.listing_dest()
     S1 = run.listing_src()
     nontrivial = False
-    if res is not None:
+    if res is not None and cfg.get("via_push"):
+        # push() only returns counts: the closure clause is checked, the
+        # "reported as failed" clause is not observable through this API
+        _oracle_c04_after(ctx, m, req_star, D1, None, None, fail, sc.get("src_missing", []))
+        big = any(len(m.children.get(o, ())) >= 2 for o in new)
+        nontrivial = bool(big and fired)
+        ctx.probe("via_index_push")
+    elif res is not None:
         T = {h.value for h in res.transferred}
         F = {h.value for h in res.failed}
         if prop == "C04":
@@ -545,7 +587,7 @@ def _oracle_c04_after(ctx, m, req_star, D1, T, F, fail, src_missing=()):
                 "child-missing-both-sides" if set(missing) & gone else "dir-present-child-absent",
                 f"{m.lab(d)} present, children absent: {[m.lab(c) for c in missing]}; failing={fail}",
             )
-        if d not in F and d not in D1:
+        if F is not None and d not in F and d not in D1:
             ctx.violate(
                 "withheld-not-failed",
                 "child-missing-both-sides" if set(missing) & gone else "upload-failure",
@@ -935,7 +977,7 @@ def simplify(sc):
     simple = {
         "jobs": 1, "use_index": False, "reflink": "enotsup", "hardlink": False,
         "page_size": 1000, "tick_ns": 1_000_000, "cache_odb": None, "src_kind": "local",
-        "traverse_prefix_len": 2, "dest_state": False,
+        "traverse_prefix_len": 2, "dest_state": False, "via_push": False,
     }  # fmt: skip
     for k, v in simple.items():
         if k in sc["cfg"] and sc["cfg"][k] != v:
